@@ -574,6 +574,26 @@ func (c *c04Case) runNest(ctx *core.Ctx) {
 			}
 			want = append(want, fmt.Sprintf("end%d:%d", r, len(row)))
 		}
+	case "byIndex", "byKey": // the inner collection is addressed through the outer loop's index / a key variable
+		tpl = `<div class="row" v-for="(r, row) in rows"><i class="c" v-for="(j, c) in rows[r]">{{ r }}.{{ j }}={{ c }}</i><b v-else class="c">empty{{ r }}</b><u class="c">first{{ r }}:{{ rows[r][0] }}</u></div>`
+		if c.Nest == "byKey" {
+			tpl = `<div class="row" v-for="(r, k) in keys"><i class="c" v-for="(j, c) in byname[k]">{{ r }}.{{ j }}={{ c }}</i><b v-else class="c">empty{{ r }}</b></div>`
+		}
+		for r, row := range rows {
+			for j, v := range row {
+				want = append(want, fmt.Sprintf("%d.%d=%d", r, j, v))
+			}
+			if len(row) == 0 {
+				want = append(want, fmt.Sprintf("empty%d", r))
+			}
+			if c.Nest == "byIndex" {
+				f := ""
+				if len(row) > 0 {
+					f = fmt.Sprint(row[0])
+				}
+				want = append(want, fmt.Sprintf("first%d:%s", r, f))
+			}
+		}
 	case "sameVar":
 		tpl = `<div class="row" v-for="x in rows"><i class="c" v-for="x in x">{{ x }}</i><u class="c">after:{{ x }}</u></div>`
 		for _, row := range rows {
@@ -591,7 +611,13 @@ func (c *c04Case) runNest(ctx *core.Ctx) {
 			want = append(want, fmt.Sprintf("i=%d", r))
 		}
 	}
-	var data any = map[string]any{"rows": rows}
+	// (byKey: the rows under keys that are falsy or look like numbers: "", "0", "false", "a")
+	keys := []string{"0", "false", "a"}[:c.Len]
+	byname := map[string]any{}
+	for i, k := range keys {
+		byname[k] = rows[i]
+	}
+	var data any = map[string]any{"rows": rows, "keys": keys, "byname": byname}
 	if c.Root == "struct" {
 		data = c04Root{Rows: rows}
 	} else if c.Root == "ptr" {
@@ -629,7 +655,10 @@ func init() {
 				maxLen = 3
 			}
 			for _, root := range []string{"map", "struct", "ptr"} {
-				for _, nest := range []string{"inner", "sameVar", "indexShadow"} {
+				for _, nest := range []string{"inner", "sameVar", "indexShadow", "byIndex", "byKey"} {
+					if nest == "byKey" && root != "map" {
+						continue
+					}
 					for n := 0; n <= 3; n++ {
 						emit(&c04Case{Nest: nest, Root: root, Len: n, Entry: "string"})
 						emit(&c04Case{Nest: nest, Root: root, Len: n, Entry: "file"})
